@@ -49,6 +49,7 @@ type Vm struct {
 	menuSeparator string            // Passed to Menu.WithSeparator if not empty
 	last          string            // Last failed LOAD/RELOAD attempt
 	matched       bool              // An INCMP has matched the input during the current Run
+	catching      bool              // The instruction being executed is the move to the catch node after a failed load
 }
 
 // NewVm creates a new Vm.
@@ -123,6 +124,7 @@ func (vm *Vm) Run(ctx context.Context, b []byte) ([]byte, error) {
 	running := true
 	vm.last = ""
 	vm.matched = false
+	vm.catching = false
 	for running {
 		r := vm.st.MatchFlag(state.FLAG_TERMINATE, true)
 		if r {
@@ -204,6 +206,7 @@ func (vm *Vm) Run(ctx context.Context, b []byte) ([]byte, error) {
 // handles errors that should not be deferred to the client.
 func (vm *Vm) runErrCheck(ctx context.Context, b []byte, err error) ([]byte, error) {
 	if err == nil {
+		vm.catching = false
 		return b, err
 	}
 	vm.pg = vm.pg.WithError(err)
@@ -212,7 +215,13 @@ func (vm *Vm) runErrCheck(ctx context.Context, b []byte, err error) ([]byte, err
 	if !v {
 		return b, err
 	}
+	if vm.catching {
+		// the move to the catch node is what failed; trying it again would never end
+		vm.catching = false
+		return b, err
+	}
 
+	vm.catching = true
 	b = NewLine(nil, MOVE, []string{"_catch"}, nil, nil)
 	return b, nil
 }
